@@ -586,9 +586,11 @@ pub fn run(ctx: &mut Ctx) {
     // seeded random configurations and endpoints
     let n = ctx.scale(4_000, 200_000, 50) / ctx.nshards as u64 + 1;
     let mut r = ctx.rng(14);
-    for _ in 0..n {
+    crate::pool::install_hooks();
+    for ci in 0..n {
         let c = random_cfg(&mut r);
         let libs = build_all(&c);
+        let mut tuples: Vec<(IpAddr, IpAddr, u16, u16)> = Vec::new();
         for _ in 0..40 {
             // endpoints drawn from the configuration's own constants +-1 and from the boundary sets
             let mut cand_ports: Vec<u16> = vec![0, 65535, r.u16()];
@@ -633,6 +635,7 @@ pub fn run(ctx: &mut Ctx) {
             let s = *r.pick(&cand_addr);
             let d = *r.pick(&cand_addr);
             check_point(ctx, &c, &libs, "random", &s, &d, sp, dp);
+            tuples.push((s, d, sp, dp));
             let shape = format!(
                 "random/{}{}{}{}",
                 if c.deny { "D" } else { "A" },
@@ -642,6 +645,154 @@ pub fn run(ctx: &mut Ctx) {
             );
             ctx.bucket(&shape);
         }
+        // the same decisions as the analyzers and worker pools take them on real packets
+        if !ctx.miri() && ci % ctx.scale(4, 2, 1) == 0 && ctx.rep.violation_count <= 12 {
+            analyzer_level(ctx, &c, &tuples, &mut r);
+        }
+    }
+    huginn_net_tcp::verif_hooks::clock::clear();
+}
+
+/// "identically in the TCP, HTTP, TLS and unified analyzers": one packet (TCP, unified: a SYN;
+/// TLS: a one-segment ClientHello; HTTP: a SYN and a request) per endpoint tuple goes through the
+/// sequential analyzers and the worker pools with the filter installed; a result must appear
+/// exactly for the tuples the documented function admits (and for which the unfiltered analyzer
+/// reports one).
+fn analyzer_level(ctx: &mut Ctx, c: &Cfg, tuples: &[(IpAddr, IpAddr, u16, u16)], r: &mut Rng) {
+    use crate::pkt::{self, flags, Endpoints, Link, Script};
+    use crate::pool::{Filters, Handle, PoolCfg, PoolKind};
+    use crate::scenario::{self, Runner, Which};
+    // distinct connections between two addresses of one family
+    let mut seen = std::collections::HashSet::new();
+    let tuples: Vec<&(IpAddr, IpAddr, u16, u16)> = tuples
+        .iter()
+        .filter(|t| t.0.is_ipv4() == t.1.is_ipv4() && (t.0, t.2) != (t.1, t.3) && !seen.contains(&(t.1, t.0, t.3, t.2)) && seen.insert((t.0, t.1, t.2, t.3)))
+        .collect();
+    if tuples.is_empty() {
+        return;
+    }
+    let hello = scenario::client_hello(r, 14, 0);
+    let request = b"GET /c14 HTTP/1.1\r\nHost: c14.example\r\nUser-Agent: hv\r\n\r\n";
+    // frames per tuple: [syn], [hello segment], [syn, request]
+    let mut frames: Vec<[Vec<Vec<u8>>; 3]> = Vec::new();
+    for t in &tuples {
+        let ep = Endpoints { client: t.0, server: t.1, cport: t.2, sport: t.3 };
+        let link = if r.chance(1, 4) { Link::RawIp } else { Link::Ethernet };
+        let mut s = Script::new(ep, link, r.u32(), r.u32());
+        let mut o = pkt::opt_mss(1460);
+        o.extend(pkt::opt_sok());
+        s.syn(o);
+        let syn = s.frames[0].clone();
+        let h = s.seg(true, s.c_next, 1, flags::ACK | flags::PSH, vec![], &hello);
+        let q = s.seg(true, s.c_next, 1, flags::ACK | flags::PSH, vec![], request);
+        frames.push([vec![syn.clone()], vec![h], vec![syn, q]]);
+    }
+    let expected_admit: Vec<bool> = tuples.iter().map(|t| ref_filter(c, &t.0, &t.1, t.2, t.3)).collect();
+    let started = std::time::Instant::now();
+    for (which, slot, pool_kind) in [(Which::Tcp, 0usize, Some(PoolKind::Tcp)), (Which::Unified, 0, None), (Which::Tls, 1, Some(PoolKind::Tls)), (Which::Http, 2, Some(PoolKind::Http))] {
+        // unfiltered reference output per tuple
+        let mut plain = Runner::new(which, 256, false);
+        let mut reference: Vec<Vec<String>> = Vec::new();
+        let mut failed = false;
+        for f in &frames {
+            let mut lines = Vec::new();
+            for x in &f[slot] {
+                match plain.feed(scenario::T0, x) {
+                    Ok(l) => lines.extend(l),
+                    Err(_) => failed = true,
+                }
+            }
+            reference.push(lines);
+        }
+        if failed {
+            continue; // a panic is C01's business
+        }
+        let expected: Vec<Vec<String>> = reference.iter().zip(&expected_admit).map(|(l, a)| if *a { l.clone() } else { vec![] }).collect();
+        // sequential analyzer with the filter
+        let mut filtered = match which {
+            Which::Tcp => Runner::Tcp(huginn_net_tcp::HuginnNetTcp::new(None, 256).expect("tcp").with_filter(build_tcp(c)), ttl_cache::TtlCache::new(1024)),
+            Which::Http => Runner::Http(huginn_net_http::HuginnNetHttp::new(None, 256).expect("http").with_filter(build_http(c))),
+            Which::Tls => Runner::Tls(huginn_net_tls::HuginnNetTls::new(256).with_filter(build_tls(c))),
+            Which::Unified => {
+                let cfg = huginn_net::AnalysisConfig { http_enabled: true, tcp_enabled: true, tls_enabled: true, matcher_enabled: false };
+                Runner::Unified(huginn_net::HuginnNet::new(None, 256, Some(cfg)).expect("unified").with_filter(build_tcp(c)))
+            }
+        };
+        if which != Which::Unified {
+            // (the unified analyzer consults its filter in its capture loops only, see below)
+            for (i, f) in frames.iter().enumerate() {
+                let mut lines = Vec::new();
+                for x in &f[slot] {
+                    if let Ok(l) = filtered.feed(scenario::T0, x) {
+                        lines.extend(l);
+                    }
+                }
+                ctx.judge(lines == expected[i], &[], "an analyzer with the filter installed decides differently from the documented function", || {
+                    json!({"analyzer": format!("{which:?}"), "path": "sequential", "config": c.describe(), "source": format!("{}:{}", tuples[i].0, tuples[i].2), "destination": format!("{}:{}", tuples[i].1, tuples[i].3),
+                           "documented_decision": expected_admit[i], "unfiltered_result": reference[i], "filtered_result": lines})
+                });
+                ctx.bucket(&format!("analyzer-level/{which:?}/sequential/{}/{}", if c.deny { "deny" } else { "allow" }, if expected_admit[i] { "admitted" } else { "rejected" }));
+            }
+        }
+        // worker pool with the filter, one frame at a time
+        let Some(kind) = pool_kind else { continue };
+        let pc = PoolCfg { workers: 1 + r.usize(3), queue: 8, batch: *r.pick(&[1usize, 8]), timeout_ms: 1, max_conn: 256, with_db: false };
+        let filters = Filters {
+            tcp: if kind == PoolKind::Tcp { Some(build_tcp(c)) } else { None },
+            http: if kind == PoolKind::Http { Some(build_http(c)) } else { None },
+            tls: if kind == PoolKind::Tls { Some(build_tls(c)) } else { None },
+        };
+        crate::pool::reset_log(0, 0);
+        huginn_net_tcp::verif_hooks::clock::set_ms(scenario::T0);
+        let via_analyzer = r.chance(1, 2);
+        let h = if via_analyzer { Handle::new_via_analyzer(kind, &pc, filters) } else { Handle::new(kind, &pc, filters) };
+        let Ok(h) = h else { continue };
+        let mut queued = 0u64;
+        let mut conclusive = true;
+        let mut lost = false;
+        'outer: for f in &frames {
+            for x in &f[slot] {
+                if !h.dispatch(x.clone()) {
+                    // frames the pool's hash cannot place are refused at dispatch: not a filter decision
+                    conclusive = false;
+                    break 'outer;
+                }
+                queued += 1;
+                if lost {
+                    continue;
+                }
+                match h.wait_drain(queued, std::time::Duration::from_secs(30)) {
+                    crate::pool::Drain::Complete => {}
+                    // reported as queued, all queues empty, never processed: lost inside the
+                    // pool.  The comparison below shows it; the remaining frames are dispatched
+                    // without waiting (each loss costs 2 s of idle detection)
+                    crate::pool::Drain::IdleShort => lost = true,
+                    crate::pool::Drain::Stalled => {
+                        conclusive = false;
+                        break 'outer;
+                    }
+                }
+            }
+        }
+        if lost && h.wait_drain(queued, std::time::Duration::from_secs(30)) == crate::pool::Drain::Stalled {
+            conclusive = false;
+        }
+        let mut got: Vec<String> = h.drain_results().into_iter().flatten().collect();
+        h.shutdown();
+        if !conclusive || started.elapsed().as_secs() > 20 {
+            ctx.inconclusive("analyzer-level pool run: a frame was not queued / not processed, or the run was too slow");
+            continue;
+        }
+        let mut want: Vec<String> = expected.iter().flatten().cloned().collect();
+        got.sort();
+        want.sort();
+        ctx.judge(got == want, &[], "a worker pool with the filter installed decides differently from the documented function", || {
+            let missing: Vec<&String> = want.iter().filter(|x| !got.contains(x)).take(3).collect();
+            let extra: Vec<&String> = got.iter().filter(|x| !want.contains(x)).take(3).collect();
+            json!({"pool": format!("{kind:?}"), "built_by_analyzer": via_analyzer, "config": c.describe(), "tuples": tuples.len(), "admitted_by_documented_function": expected_admit.iter().filter(|a| **a).count(),
+                   "results_expected": want.len(), "results_got": got.len(), "missing": missing, "not_expected": extra})
+        });
+        ctx.bucket(&format!("analyzer-level/{kind:?}/pool/{}/w{}", if c.deny { "deny" } else { "allow" }, pc.workers));
     }
 }
 
